@@ -192,8 +192,11 @@ func genOp(rt *rapid.T, k int, pick func(label string, xs []string) string) []op
 			op := pick("makeop", []string{"use(len(make([]int, n)))", "use(cap(make([]int, 0, n)))", "use(len(make([]int, 2, c)))", "use(cap(make(chan int, n)))", "use(len(make([]byte, n, n)))"})
 			out = append(out, opProbe{fmt.Sprintf("make n=%s(%s): %s", nt, nv, op), "n := " + nt + "(" + nv + "); c := 1; _, _ = n, c", op})
 		case 16: // slice to array conversions
-			decl := "s := []int{1, 2, 3}; var ns []int; e := []int{}; _, _, _ = s, ns, e"
-			op := pick("s2a", []string{"a := [3]int(s); use(a[2])", "a := [4]int(s); use(a[0])", "a := [2]int(s); use(a[1])", "p := (*[4]int)(s); use(p[0])", "p := (*[3]int)(s); p[0] = 9; use(s[0])", "p := (*[0]int)(ns); sinkB = p == nil", "p := (*[0]int)(e); sinkB = p == nil", "a := [0]int(ns); use(len(a))", "p := (*[1]int)(ns); use(p[0])", "a := [1]int(s[3:]); use(a[0])"})
+			decl := "s := []int{1, 2, 3}; var ns []int; e := []int{}; big := make([]int, 6); short := big[:2]; mid := big[1:3:5]; _, _, _, _, _, _ = s, ns, e, big, short, mid"
+			op := pick("s2a", []string{"a := [3]int(s); use(a[2])", "a := [4]int(s); use(a[0])", "a := [2]int(s); use(a[1])", "p := (*[4]int)(s); use(p[0])", "p := (*[3]int)(s); p[0] = 9; use(s[0])", "p := (*[0]int)(ns); sinkB = p == nil", "p := (*[0]int)(e); sinkB = p == nil", "a := [0]int(ns); use(len(a))", "p := (*[1]int)(ns); use(p[0])", "a := [1]int(s[3:]); use(a[0])",
+				// shorter than the array but with enough capacity: the length decides
+				"p := (*[3]int)(short); p[2] = 7; use(big[2])", "p := (*[6]int)(short); use(p[5])", "a := [3]int(short); use(a[2])", "p := (*[2]int)(short); p[1] = 5; use(big[1])",
+				"p := (*[3]int)(mid); use(p[2])", "p := (*[4]int)(mid); use(p[3])", "p := (*[2]int)(mid); p[0] = 4; use(big[1])", "a := [4]int(mid); use(a[3])", "p := (*[0]int)(short[:0]); sinkB = p != nil"})
 			out = append(out, opProbe{"slice-to-array " + op, decl, op})
 		case 17, 18: // channels
 			decl := "var nc chan int; c := make(chan int, 1); cl := make(chan int, 1); close(cl); _, _, _ = nc, c, cl"
